@@ -14,6 +14,7 @@ O = lambda op, *a: ["o", op] + list(a)
 
 
 def row(kind, k):
+    if kind == "free": return None, None
     if kind == "range": return 1 + k, 5 + k
     if kind == "le": return None, 3 + k
     if kind == "ge": return -1 - k, None
@@ -173,7 +174,7 @@ def run(tier):
     g = tlc("GenVal", "GenVal.cfg", cwd=sd, workers=NPROC)
     tlc_must_pass(g, "GenVal")
     gen = printed_json(g, "CASE")
-    if len(gen) != 25200:
+    if len(gen) != 775 * 5 * 3 * 5:
         raise Broken("GenVal produced %d cases" % len(gen))
     gen.sort(key=lambda c: json.dumps(c, sort_keys=True))
     rnd = random.Random(seed())
